@@ -65,6 +65,7 @@ type sreq struct {
 	query     string
 	target    string // request target sent instead of path?query (C19: absolute-form, authority-form)
 	archiveOf string // "zip" | "tar": the directory listing is asked for as an archive
+	cond      bool   // (static requests) carries a Range header or a precondition
 	json      bool   // the upload is labelled application/json (its body may be logged)
 	lim       int    // body limit applying to the path (0 = none)
 	hdrs      [][2]string
@@ -101,6 +102,7 @@ type siteRig struct {
 	gzNot       string
 	hasErrors   bool
 	errPages    map[int]string
+	tplStatic   bool         // templates also covers /static (where the fixture static/t.html has template actions and precompressed copies)
 	errGone     map[int]bool // the page is configured but its file has gone by the time it is wanted
 	hasHeader   bool
 	hasStatus   bool
@@ -246,7 +248,14 @@ func (r *siteRig) probe(label string, next httpserver.Handler, w http.ResponseWr
 			}
 		}
 		park("accel-write")
-		io.WriteString(w, "body-the-client-must-never-see")
+		// (a backend may send a body along with X-Accel-Redirect; the proxy copies it with io.Copy,
+		// for which a write that takes fewer bytes than it was given and reports no error is an
+		// error, and the proxy aborts a response it cannot complete)
+		const hidden = "body-the-client-must-never-see"
+		if n, err := io.WriteString(w, hidden); err == nil && n != len(hidden) {
+			c.Probe("short-write-without-error")
+			panic(http.ErrAbortHandler)
+		}
 		return 0, nil
 	}
 	h := w.Header()
@@ -488,6 +497,14 @@ func runSite(mode string) sim.RigFunc {
 				r.siblings["/"+f] = append(r.siblings["/"+f], enc)
 			}
 		}
+		// a page with template actions, and precompressed copies of its source next to it
+		tpl := []byte("TPL-BEGIN {{.Method}} {{/* server side only */}}TPL-END\n" + strings.Repeat("template fixture padding 0123456789\n", 40))
+		r.static["/static/t.html"] = tpl
+		put("static/t.html", tpl)
+		put("static/t.html.gz", cached("gz", tpl, gz))
+		put("static/t.html.br", cached("br", tpl, br))
+		put("static/t.html.zst", cached("zs", tpl, zs))
+		r.siblings["/static/t.html"] = []string{"gz", "br", "zst"}
 		// the site's own Casketfile lies inside the root, with precompressed copies next to it (a
 		// deployment step that compresses everything): hidden, whatever codings the client offers
 		conf := []byte("# the configuration of this site: not for visitors\n" + strings.Repeat("SITE-CONF-SECRET\n", 30))
@@ -550,6 +567,7 @@ func runSite(mode string) sim.RigFunc {
 			logFormat += " " + logFrags[i].text
 		}
 		r.hasTemplates = mode != "C18" && pick(25)
+		r.tplStatic = r.hasTemplates && pick(60)
 		r.errVisible = r.hasErrors && !r.hasGzip && pick(20)
 		r.hasMatchers = mode == "C19" && pick(50)
 		siteText := func(host string, twin bool) string {
@@ -637,6 +655,9 @@ func runSite(mode string) sim.RigFunc {
 			}
 			if r.hasTemplates {
 				b.WriteString("\ttemplates /p\n")
+				if r.tplStatic {
+					b.WriteString("\ttemplates /static\n")
+				}
 			}
 			if mode == "C20" && r.logExcept != "" && !twin {
 				// rewrites that cross the excepted prefix: what is excepted is decided by the path the client asked for
@@ -810,7 +831,7 @@ func (r *siteRig) genReq(id, site string) *sreq {
 	// path class
 	switch cls := st.Draw(12); {
 	case cls == 0:
-		q.path = []string{"/static/a.txt", "/static/b.html", "/static/c.css", "/static/missing.txt", "/static/site.conf"}[st.Draw(5)]
+		q.path = []string{"/static/a.txt", "/static/b.html", "/static/c.css", "/static/missing.txt", "/static/site.conf", "/static/t.html", "/static/t.html"}[st.Draw(7)]
 		sc.mode = "static"
 	case cls == 1 && r.hasStatus:
 		q.path = "/teapot"
@@ -866,6 +887,14 @@ func (r *siteRig) genReq(id, site string) *sreq {
 	if sc.mode == "static" {
 		if pick(10) {
 			q.method = "HEAD"
+		}
+		if pick(20) {
+			// ranges and preconditions: whatever the file server answers (206, 304, 412, 416 ...), the
+			// response is well-formed and labelled with the codings applied to what it carries
+			q.cond = true
+			q.hdrs = append(q.hdrs, [][2]string{{"Range", "bytes=0-4"}, {"Range", "bytes=1000-"}, {"Range", "bytes=900000-"}, {"If-Match", `"no-such-version"`},
+				{"If-Unmodified-Since", "Mon, 01 Jan 1990 00:00:00 GMT"}, {"If-None-Match", "*"}, {"If-Modified-Since", "Fri, 01 Jan 2100 00:00:00 GMT"}}[st.Draw(7)])
+			r.c.Probe("static-request-with-range-or-precondition")
 		}
 		return q
 	}
@@ -1365,7 +1394,7 @@ func (r *siteRig) judgeBody(q *sreq, resp *sim.Resp, dec []byte, derr error, bod
 	if bodyless || sc.panicAt > 0 {
 		return // (a panic after the response started may leave a cut or mixed body: excepted by the statement)
 	}
-	if derr != nil {
+	if derr != nil && !(sc.mode == "static" && resp.Status == 206) { // (a range of a compressed file does not decode by itself)
 		c.Violate("C12/body-undecodable", resp.Header.Get("Content-Encoding"), "request %s (%s %s, Accept-Encoding %q, status %d, %d wire bytes %q): response labelled Content-Encoding %q does not decode: %v; script %s", q.id, q.method, q.path, q.ae, resp.Status, len(resp.Body), trunc(resp.Body, 40), resp.Header.Get("Content-Encoding"), derr, sc.describe())
 		return
 	}
@@ -1373,6 +1402,18 @@ func (r *siteRig) judgeBody(q *sreq, resp *sim.Resp, dec []byte, derr error, bod
 		return
 	}
 	switch {
+	case sc.mode == "static" && resp.Status == 200 && !q.cond && q.method == "GET":
+		// the file as it is; a page with template actions rendered if templates covers it
+		if want, ok := r.static[q.path]; ok {
+			how := "file"
+			if r.tplStatic && q.path == "/static/t.html" {
+				want, how = bytes.Replace(want, []byte("{{.Method}} {{/* server side only */}}"), []byte("GET "), 1), "rendered-template"
+			}
+			if !bytes.Equal(dec, want) {
+				c.Violate("C12/body-altered", "static/"+how, "request %s (GET %s, Accept-Encoding %q): the client decoded %d bytes (Content-Encoding %q) that are not the %s (%d bytes), first difference at %d: %q (%s)", q.id, q.path, q.ae, len(dec), resp.Header.Get("Content-Encoding"), how, len(want), firstDiff(dec, want), trunc(dec, 60), r.dirSig())
+			}
+			c.Probe("static-body-compared")
+		}
 	case sc.mode == "static" || r.hasAuth && strings.HasPrefix(q.path, "/p/auth") && !q.auth:
 		// covered by status
 	case sc.mode == "return" || sc.panicAt == 0:
@@ -1543,7 +1584,7 @@ func (r *siteRig) judgeCompression(q *sreq, resp *sim.Resp, dec []byte, derr err
 			c.Violate("C18/coding-not-offered", fmt.Sprintf("ce=%q", ce), "request %s (%s, siblings %v): the client offered Accept-Encoding %q but the response is %q-coded", q.id, q.path, r.siblings[q.path], q.ae, ce)
 		}
 		c.Probe("precompressed-sibling-served")
-		if derr != nil && !bodyless {
+		if derr != nil && !bodyless && resp.Status != 206 { // (a range of a compressed file does not decode by itself)
 			// (the twin site serves the same files through the same code: the comparison below cannot see this)
 			c.Violate("C18/body-undecodable", sig, "request %s (%s %s, Accept-Encoding %q, status %d): the file server labelled its response %q but the body does not decode: %v", q.id, q.method, q.path, q.ae, resp.Status, ce, derr)
 		}
